@@ -101,6 +101,7 @@ def Excl (thr : List Thread) : Prop :=
 
 /-- caller bookkeeping -/
 structure UserInv (s : Store) (thr : List Thread) : Prop where
+  uPlain : ∀ k, k ∈ s.kheld → plainKey k = true
   uAbs : ∀ it, it ∈ s.abs → plainKey it.key = true → it.key ∈ s.kheld
   uIns : ∀ (t : Nat) (th : Thread) (k : Nat), thr[t]? = some th → PendIns th k →
             k ∈ s.kheld ∧ (∀ it, it ∈ s.abs → it.key ≠ k) ∧
